@@ -228,7 +228,8 @@ pub fn check_c11(w: &mut World) -> R<()> {
         for (k, v) in &snap {
             if let Some(old) = w.universe.get(k) {
                 if old != v {
-                    return viol("C11", format!("item {} has different bytes on replica {} than elsewhere/earlier:\n {}\n {}", k, i, String::from_utf8_lossy(old), String::from_utf8_lossy(v)));
+                    let show = |b: &Vec<u8>| format!("{} bytes {:?}", b.len(), String::from_utf8_lossy(&b[..b.len().min(300)]));
+                    return viol("C11", format!("item {} has different bytes on replica {} than elsewhere/earlier:\n {}\n {}", k, i, show(old), show(v)));
                 }
                 continue;
             }
